@@ -438,6 +438,16 @@ class Simulator(EventProducer, SimulatorInterface, Generic[TIME]):
                and not self.__worker.is_finalized()
                and int(time.time() * 1000) - msec < 1000):
             sleep(0.001)
+        # the run thread may have left its run loop by itself (bound or end
+        # of the replication reached) after the caller's check but before
+        # the assignment above; it is idle now and will not settle the state
+        if (self._run_state == RunState.STOPPING 
+                and (self.__worker.is_waiting() 
+                     or self.__worker.is_finalized())):
+            if self._replication_state == ReplicationState.ENDED:
+                self._run_state = RunState.ENDED
+            else:
+                self._run_state = RunState.STOPPED
 
     def stop(self):
         """Stops the simulator, and fire a STOP_EVENT that the simulator 
